@@ -108,37 +108,46 @@ func (x *xmlParser) Pull() (node.Node, bool, error) {
 	x.attrPos = 0
 	x.namespaces = emptyXmlNamespaces
 	x.nsPos = 0
-	tok, err := x.xmlReader.Token()
 
-	if err != nil {
-		return nil, false, err
+	for {
+		tok, err := x.xmlReader.Token()
+
+		if err != nil {
+			return nil, false, err
+		}
+
+		switch n := tok.(type) {
+		case xml.StartElement:
+			x.namespaces = createXmlNamespaces(n.Attr)
+			x.attrs = createXmlAttrs(n.Attr)
+			return XmlElement{
+				space: n.Name.Space,
+				local: n.Name.Local,
+			}, false, nil
+		case xml.CharData:
+			return XmlCharData{
+				value: (string)(n),
+			}, false, nil
+		case xml.Comment:
+			return XmlComment{
+				value: (string)(n),
+			}, false, nil
+		case xml.ProcInst:
+			// The XML declaration is not a processing instruction.
+			if n.Target == "xml" {
+				continue
+			}
+
+			return XmlProcInst{
+				target: n.Target,
+				value:  string(n.Inst),
+			}, false, nil
+		case xml.EndElement:
+			return nil, true, nil
+		}
+
+		// Directives (e.g. the document type declaration) are not nodes.
 	}
-
-	switch n := tok.(type) {
-	case xml.StartElement:
-		x.namespaces = createXmlNamespaces(n.Attr)
-		x.attrs = createXmlAttrs(n.Attr)
-		return XmlElement{
-			space: n.Name.Space,
-			local: n.Name.Local,
-		}, false, nil
-	case xml.CharData:
-		return XmlCharData{
-			value: (string)(n),
-		}, false, nil
-	case xml.Comment:
-		return XmlComment{
-			value: (string)(n),
-		}, false, nil
-	case xml.ProcInst:
-		return XmlProcInst{
-			target: n.Target,
-			value:  string(n.Inst),
-		}, false, nil
-	}
-
-	//case xml.EndElement:
-	return nil, true, nil
 }
 
 func createXmlNamespaces(attrs []xml.Attr) []XmlNamespace {
